@@ -809,7 +809,7 @@ pub fn api_harness(spec: &RunSpec) -> RunOutput {
                         &[Prop::C05, Prop::C06],
                         format!("channel session {tag}: consumer saw {got:?}, producer sent {sent:?}"),
                     ));
-                } else if *closed && *ended && got.len() != sent.len() && fault_kind == "none" {
+                } else if *closed && *ended && got.len() != sent.len() && fault_kind == "none" && lg.session_tags.contains(tag) {
                     vs.push(Violation::new(
                         "channel.items-lost",
                         &[Prop::C05, Prop::C06],
